@@ -73,6 +73,11 @@ func c07Case(seed int64, tier string, i int) (vlib.SshCase, string) {
 	corpus := c07Corpus(seed, tier)
 	c := corpus.At(i % corpus.Len())
 	pid := pidTokens[i%len(pidTokens)]
+	if i%20 == 7 {
+		// the newline is the only framing: a record that ends in a carriage
+		// return, a blank or a tab keeps it on both paths
+		c.Msg += []string{"\r", " ", "\t", "\r\r"}[(i/20)%4]
+	}
 	return c, pid
 }
 
